@@ -79,3 +79,23 @@ Proof.
   intros Fx H. unfold b_deg2rad, deg2rad in *. rewrite <- B2R_c_deg2rad in *.
   apply bmul_refines; [exact Fx | reflexivity | exact H].
 Qed.
+
+(* ---- the range clause in the denormal regime, on the executable twin ------------------------
+   Largest generator output k = 2^32-1 (converted to float: 2^32).
+   (a) the code's order  (scale * rng()) * diff + lower  returns exactly upper on [0, 1e-30];
+   (b) the order of seeded change C07-5  rng() * ((upper - lower) * scale) + lower  exceeds upper there
+       (diff * 2^-32 is a denormal whose rounding error is multiplied by 2^32);
+   (c) uniform_real_distribution before repair fix-1, scale = (u - l) / 2^32 first, exceeds u = 1.5 * 2^-117 by a
+       third (returns 2^-116); the repaired order returns u. *)
+Local Open Scope Z_scope.
+Lemma b_pcg_float_scaled_diff_refuted :
+  let lo := of_bits 0 in let hi := of_bits 228737632 (* 1e-30f *) in let k := 4294967295 in
+  bltb hi (b_pcg_float_k lo hi k) = false /\ to_bits (b_pcg_float_k lo hi k) = 228737632 /\
+  bltb hi (b_pcg_float_scaled_k lo hi k) = true.
+Proof. vm_compute. repeat split; reflexivity. Qed.
+
+Lemma b_uniform_old_refuted :
+  let l := of_bits 0 in let u := of_bits 88080384 (* 1.5 * 2^-117 *) in let k := 4294967295 in
+  bltb u (b_uniform_old_k l u k) = true /\ to_bits (b_uniform_old_k l u k) = 92274688 (* 2^-116 *) /\
+  bltb u (b_uniform_k l u k) = false /\ to_bits (b_uniform_k l u k) = 88080384.
+Proof. vm_compute. repeat split; reflexivity. Qed.
